@@ -216,6 +216,113 @@ func c15Scenario(cfg c15Cfg) *hx.Scenario {
 	}
 }
 
+// ---- a name that is a local in one call and injected in the next ----
+//
+// rules: r0 `t = 7`, r1 `return t`. Call 1 injects nothing under `t`: r0 writes its private local,
+// r1 (another rule) must not see it. Call 2 on the same compiled rules injects `t` (pointer to an
+// int64 holding 1): now the name is shared - r0's store reaches the host variable and r1 reads 7.
+// Call 3 again without `t`. Run through the engine (same builder text, fresh data contexts) and
+// through two sequential pool requests.
+
+type roleCfg struct {
+	Order []bool `json:"order"` // per call: is `t` injected?
+	Pool  bool   `json:"pool"`
+	Model string `json:"model"`
+}
+
+type roleState struct {
+	hosts []*int64
+	res   []map[string]interface{}
+	errs  []error
+	pans  []interface{}
+}
+
+const roleRules = "rule \"r0\" salience 9 begin\n  t = 7\nend\nrule \"r1\" salience 5 begin\n  return t\nend\n"
+
+func roleScenario(cfg roleCfg) *hx.Scenario {
+	src := compileCached(roleRules)
+	var template *engine.GenginePool
+	if cfg.Pool {
+		var err error
+		template, err = engine.NewGenginePool(1, 2, engine.SortModel, roleRules, map[string]interface{}{})
+		if err != nil {
+			vsched.InternalError("pool: %v", err)
+		}
+	}
+	return &hx.Scenario{
+		Name: "c15role",
+		Cfg:  cfg,
+		New:  func() interface{} { return &roleState{} },
+		Body: func(s interface{}) {
+			st := s.(*roleState)
+			g := engine.NewGengine()
+			var gp *engine.GenginePool
+			if cfg.Pool {
+				gp = gx.DeepClone(template).(*engine.GenginePool)
+			}
+			for _, inj := range cfg.Order {
+				hv := new(int64)
+				*hv = 1
+				data := map[string]interface{}{}
+				if inj {
+					data["t"] = hv
+				}
+				var err error
+				var pan interface{}
+				var res map[string]interface{}
+				if cfg.Pool {
+					err, res, pan = gx.PoolCallGuarded(gx.PoolMethodByName(cfg.Model), gp, data, gx.PoolCallParams{B: true})
+					vsched.WaitOthersDone()
+				} else {
+					m := gx.ModelByName(cfg.Model)
+					rb := gx.Fresh(src, nil, data)
+					err, pan = gx.CallGuarded(func() error { return m.Call(g, rb, gx.Params{B: true}) })
+					res, _ = g.GetRulesResultMap()
+				}
+				st.hosts = append(st.hosts, hv)
+				st.res = append(st.res, gx.CopyResult(res))
+				st.errs = append(st.errs, err)
+				st.pans = append(st.pans, pan)
+			}
+		},
+		Check: func(s interface{}, ex *vsched.Exec) (fs []hx.Finding) {
+			st := s.(*roleState)
+			raw, _ := json.Marshal(cfg)
+			bad := func(sig, msg string) {
+				fs = append(fs, hx.Finding{Sig: "c15:role:" + sig, Msg: msg + fmt.Sprintf("\n  cfg=%s\n  rules:\n%s  results=%v", raw, roleRules, st.res)})
+			}
+			if ex.Verdict != "" {
+				bad(ex.Verdict, "execution did not complete: "+ex.Verdict+" "+firstLine(ex.Crash))
+				return
+			}
+			for i, inj := range cfg.Order {
+				if st.pans[i] != nil {
+					bad("panic", fmt.Sprintf("call %d panicked: %v", i+1, st.pans[i]))
+					return
+				}
+				v, has := st.res[i]["r1"]
+				if inj {
+					if *st.hosts[i] != 7 {
+						bad("injected-name-not-shared", fmt.Sprintf("call %d injects `t`; rule r0 assigned 7 to it but the host variable holds %d (the store went to a private local)", i+1, *st.hosts[i]))
+					}
+					p, ok := v.(*int64)
+					if !has || !ok || *p != 7 {
+						bad("injected-name-not-shared-read", fmt.Sprintf("call %d injects `t`; rule r1 must read the injected variable (7 after r0's store), it returned %v", i+1, v))
+					}
+				} else {
+					if has {
+						bad("local-leaked", fmt.Sprintf("call %d does not inject `t`; rule r1 never assigned it yet returned %v", i+1, v))
+					}
+					if st.errs[i] == nil {
+						bad("no-error", fmt.Sprintf("call %d: rule r1 read an undefined local but the call returned no error", i+1))
+					}
+				}
+			}
+			return
+		},
+	}
+}
+
 func c15Configs(thorough bool) (cfgs []c15Cfg, bounds []int) {
 	kinds := []string{"W", "R", "RW"}
 	var sets [][]string
@@ -287,7 +394,7 @@ func init() {
 		BudgetQuick: 150 * time.Second,
 		BudgetThor:  25 * time.Minute,
 		Kind:        "schedules",
-		Rule: "all rule sets of 1..3 rules over {W: writes its local t then reads it back, R: reads t without assigning, RW: reads t before first write} plus sets with a writer that fails after writing (rule-level panic / ordinary error) followed by readers in every salience order x all 21 engine models (x policy) x two consecutive calls on one engine; goroutine-spawning models under every schedule with <=2 (thorough 3) deviations from the default scheduler (delay bounding); plus two overlapping pool requests running the same rules with request-unique values; " +
+		Rule: "all rule sets of 1..3 rules over {W: writes its local t then reads it back, R: reads t without assigning, RW: reads t before first write} plus sets with a writer that fails after writing (rule-level panic / ordinary error) followed by readers in every salience order x all 21 engine models (x policy) x two consecutive calls on one engine; goroutine-spawning models under every schedule with <=2 (thorough 3) deviations from the default scheduler (delay bounding); plus two overlapping pool requests running the same rules with request-unique values; plus call histories in which the same name is a rule local in one call and an injected (shared) name in the next, engine and pool; " +
 			"oracle: R/RW never obtain a value (no result entry, error), every W returns and reads back its own value, updates of the shared injected object are all present",
 		Assume: []string{"strict saliences", "each rule updates its own field of the shared injected object (a concurrent read-modify-write of one host field is the host's business)"},
 		Run: func(c *hx.Ctx) {
@@ -302,8 +409,21 @@ func init() {
 				}
 				hx.Explore("C15", c15Scenario(cfg), hx.ExploreCfg{Bound: envBound(delayBound(c, bounds[i])), Delay: true, Prune: true, Deadline: c.Deadline}, c.Res)
 			}
+			if c.Shard == 0 {
+				for _, order := range [][]bool{{false, true}, {true, false}, {false, true, false}, {true, false, true}, {false, false, true}} {
+					for _, m := range []string{"Execute", "ExecuteConcurrent", "ExecuteMixModel"} {
+						hx.Explore("C15", roleScenario(roleCfg{Order: order, Model: m}), hx.ExploreCfg{Bound: 0, DefaultOnly: true}, c.Res)
+						hx.Explore("C15", roleScenario(roleCfg{Order: order, Model: m, Pool: true}), hx.ExploreCfg{Bound: 0, DefaultOnly: true}, c.Res)
+					}
+				}
+			}
 		},
 		Rebuild: func(v *hx.Violation) *hx.Scenario {
+			if v.Scenario == "c15role" {
+				var rc roleCfg
+				json.Unmarshal(v.Cfg, &rc)
+				return roleScenario(rc)
+			}
 			var cfg c15Cfg
 			json.Unmarshal(v.Cfg, &cfg)
 			return c15Scenario(cfg)
